@@ -3,7 +3,7 @@ CONC = "deterministic simulation: seeded schedule search over AST-inserted sched
 HIST = "deterministic simulation (history driver): seeded fault-structured operation histories with seeded hidden randomness, "
 NOTE_CONC = ("Sampling, not enumeration. Interleavings are explored at inserted scheduling points (locks, atomics, channel operations, select, go, Broadcast/Wait); "
              "code between two points is atomic w.r.t. other tasks; the sync.Cond helper goroutine of blockUntilSignaled/subscribe is not preempted. "
-             "Trusted: bin/verif-inst only inserts inert calls; go1.26.8 testing/synctest fake clock; harness oracles. Determinism is probed on every run (3 processes, GOMAXPROCS 1/4/16).")
+             "Trusted: bin/verif-inst only inserts inert calls and the ordered-select wrapper (DESIGN.md §2.1); go1.26.8 testing/synctest fake clock; harness oracles. Determinism is probed on every run (3 processes, GOMAXPROCS 1/4/16).")
 NOTE_HIST = ("Sampling, not enumeration. Single driving goroutine: no schedule dimension; the simulator contributes the seeded environment/fault model, control of math/rand, "
              "reference models / twin runs, bounded-liveness checks, tape shrinking and exact replay. Valid-configuration domains are stated in DESIGN.md §3.")
 
